@@ -493,3 +493,71 @@ def c06(ctx):
                        "quick tier samples 700 cells of the lattice with VERIF_SEED; thorough runs the whole lattice"]
     return M.finish(ctx, rule="one case = the n-th (n=1..3) handshake of a fresh server configured as one cell of Handshake.tla; open packet, first "
                     "message, connection events, revision, payload format and heartbeat mode observed", exhaustive=not q, evs=evs)
+
+
+# ------------------------------------------------------------------ C16 / C17
+HR_BASE = ('Revs = {4, 3} B64s = {FALSE, TRUE} Jsonps = {FALSE, TRUE} AEs = %s\n Thresholds = {"default", "zero", "off"} Flags = {"default", "true", "false"} '
+           'Sizes = {10, 3000} Kinds = {"text", "binary"} Js = %s\n'
+           ' Cookies = {"none", "default", "custom"} HsTransports = {"polling", "websocket"} Policies = {"none", "star", "string", "list", "regexp", "true", "false"}\n'
+           ' Creds = {TRUE, FALSE} ReqOrigins = {"a", "evil", "absent"} Preflights = {TRUE, FALSE} Continues = {TRUE, FALSE} Statuses = {204, 200}\n')
+HR_AES_Q = '{"absent", "gzip", "deflate", "several", "identity", "gzipq0"}'
+HR_AES_T = '{"absent", "gzip", "deflate", "br", "zstd", "several", "identity", "gzipq0", "mixedq"}'
+HR_JS = '{"seven", "12ab", "script", "empty", "inject"}'
+
+
+def hr_cfg(mode, quick, emit, inv="TableOK"):
+    return ("SPECIFICATION Spec\nCONSTANTS Mode = \"%s\" Emit = %s\n %s\nINVARIANTS %s\n"
+            % (mode, emit, HR_BASE % (HR_AES_Q if quick else HR_AES_T, HR_JS), inv))
+
+
+def hr_run(ctx, modes, cap_quick):
+    q = ctx.quick
+    cells = []
+    for mode in modes:
+        M.tlc_model(ctx, "HttpResp", hr_cfg(mode, q, "FALSE"), "hr_" + mode)
+        cs = tlc_cells(ctx, "HttpResp", hr_cfg(mode, q, "TRUE", "EmitCell"), "hr_" + mode)
+        if q and len(cs) > cap_quick:
+            import random
+            random.Random(ctx.seed).shuffle(cs)
+            cs = cs[:cap_quick]
+        cells += cs
+    ctx.extra["cells"] = len(cells)
+    trace, summ = M.go_family(ctx, "hr", behaviours=[cells], timeout=3000)
+    mon = hr_cfg(modes[0], q, "FALSE").replace("SPECIFICATION Spec", "SPECIFICATION MSpec").replace("INVARIANTS TableOK\n", "") \
+        + 'CONSTANT TraceFile = "trace.ndjson"\nCHECK_DEADLOCK FALSE\n'
+    viols, lines = M.tlc_trace(ctx, "HttpRespMon", mon, "hr", trace, timeout=3000)
+    info = ctx.last_nonconf[0] if ctx.last_nonconf else {}
+    ctx.traces = info.get("cells", 0)
+    ctx.events = lines
+    evs = M.read_trace(trace)
+    ctx.samples = [e for e in evs if e["e"] == "hr.cell"][:3]
+    ctx.extra["distinct_nontrivial"] = info.get("cells", 0)
+    return viols, evs
+
+
+@prop("C16")
+def c16(ctx):
+    viols, evs = hr_run(ctx, ["resp"], 1500)
+    for v in viols:
+        c, o = v.get("cell", {}), v.get("obs", {})
+        v["sig"] = "coding:%s:%s" % (c.get("ae"), o.get("cenc")) if o.get("cenc") not in (v.get("want", {}).get("codings") or [""]) else "other"
+        v["ae"] = c.get("ae")
+        v["cenc"] = o.get("cenc")
+    M.classify(ctx, viols)
+    ctx.assumptions = ["decoder libraries (gzip, zlib, brotli, zstd, encoding/json) are trusted", "content equality of payloads is decided in Go",
+                       "no coding is always admissible (the property says 'only when'); which of several acceptable codings is chosen is left open"]
+    return M.finish(ctx, rule="one case = one poll response of a fresh server for one cell of HttpResp.tla (revision x b64 x JSONP x Accept-Encoding x "
+                    "threshold x compress flag x size x kind x j parameter), decoded with the independent codec", exhaustive=not ctx.quick, evs=evs)
+
+
+@prop("C17")
+def c17(ctx):
+    viols, evs = hr_run(ctx, ["cookie", "cors"], 100000)
+    for v in viols:
+        c = v.get("cell", {})
+        v["sig"] = ("cookie:%s:%s" % (c.get("transport"), c.get("step"))) if v.get("clause") == "cookie" else "cors:%s" % c.get("policy")
+        v["transport"] = c.get("transport")
+    M.classify(ctx, viols)
+    ctx.assumptions = ["a fixed-string CORS origin is sent whatever the request's Origin is (it names the configured origin, not the request's)"]
+    return M.finish(ctx, rule="one case = one HTTP response (handshake / poll / post / poll) of a fresh server per cookie cell, or one request per CORS cell "
+                    "(policy shape x credentials x request origin x preflight x preflightContinue x status)", exhaustive=True, evs=evs)
